@@ -150,7 +150,8 @@ def run(ctx):
         if "CgroupState" in t:
             ctx.check("var:start_limit" in t, "initialize:state-limit", "provenance", ic.loc(r), "recorded limit is the start limit", "state built from " + t[:80])
     for w in local_writes(ic, "start_limit"):
-        ctx.check(ic.text(write_rhs(ic, w)) == "*current_opt", "initialize:start-limit-is-usage", "provenance", ic.loc(w), "start limit = current usage", "start limit = " + ic.text(write_rhs(ic, w)))
+        ctx.check(Xc(write_rhs(ic, w)) in ("*param:cgroup_ctx.current_usage(nullptr)", "param:cgroup_ctx.current_usage(nullptr).value()"), "initialize:start-limit-is-usage", "provenance", ic.loc(w),
+                  "start limit = current usage", "start limit = " + Xc(write_rhs(ic, w)))
 
     # ------------------------------------------------ immediate backoff: guards, size, swappiness
     tib = ctx.fn1("Oomd::Senpai::tick_immediate_backoff")
@@ -267,8 +268,10 @@ def run(ctx):
     ctx.counters["reclaim_request_sites"] = n_once
     ctx.floor("reclaim_request_sites", 3, "memory.reclaim write, its caller in reclaim() and reclaim()'s caller in tick_immediate_backoff")
     rm = ctx.fn1("Oomd::Senpai::resetMemhigh")
-    init, v = local_init(rm, "value")
-    ctx.check(v is not None and "numeric_limits" in rm.text(init) and "max()" in rm.text(init), "reset-writes-max", "value-shape", rm.loc(), "reset writes max", "reset writes " + (rm.text(init) if v else "?"))
+    # what the reset writes: the value argument of both memory.high writers, through a local or directly
+    Xrm = Expander(P, rm)
+    wv = [Xrm(rm.nodes[i]["args"][1]) for i in rm.calls("Fs::writeMemhighAt", "Fs::writeMemhightmpAt") if len(rm.nodes[i].get("args", [])) >= 2]
+    ctx.check(len(wv) >= 1 and all("numeric_limits" in t_ and "max()" in t_ for t_ in wv), "reset-writes-max", "value-shape", rm.loc(), "reset writes max", "reset writes " + str(wv))
 
     # ------------------------------------------------ guard polarity (sibling agreement)
     # the swap validation judges the EFFECTIVE utilisation: its fold over the ancestors is part of this property too
